@@ -708,6 +708,25 @@ func c07TextMutants(r *Rng, b []byte, others [][]byte, budget int) []c07Mutant {
 		}
 	}
 	out := c07Sample(r, len(sys), budget*75/100, func(i int) (c07Mutant, bool) { return sys[i](), true })
+	// letters whose upper- or lower-case form has another UTF-8 length (K for KELVIN SIGN, i for I WITH DOT ABOVE, ...) put
+	// in place of as many bytes as they occupy, so that the text keeps its length: a parser that measures the text before
+	// folding its case and cuts it afterwards (or the other way round) reads outside what it measured
+	if len(b) >= 3 {
+		folds := []string{"\u212a", "\u212b", "\u2126", "\u1e9e", "\u0130", "\u0131", "\u017f", "\u023a", "\u023e", "\u0250"}
+		for n := budget/8 + 6; n > 0; n-- {
+			f := folds[r.Intn(len(folds))]
+			var i int
+			switch r.Intn(3) {
+			case 0:
+				i = len(b) - len(f) - r.Intn(len(b)-len(f)+1)/3 // towards the end
+			default:
+				i = r.Intn(len(b) - len(f) + 1)
+			}
+			m := cp()
+			copy(m[i:], f)
+			out = append(out, c07Mutant{m, "text.case-length"})
+		}
+	}
 	alphabet := []byte("0123456789abcdefABCDEFxX{}()-.:/, \t=+%")
 	for len(out) < budget {
 		m := cp()
